@@ -40,7 +40,7 @@ func c12(c *rig.Ctx) {
 	c.Assume("a reader that returns short reads is not a construction route dolt uses for blobs (all callers pass bytes.Reader); " +
 		"it is run as a diagnostic only")
 	st := newStats()
-	n := c.Pick(200, 4000)
+	n := c.Pick(200, 6000)
 	parallel(n, workers, func(i int) { c12Maps(c, st, i, n) })
 	na := c.Pick(40, 600)
 	parallel(na, workers, func(i int) { c12AddressMap(c, st, i) })
